@@ -92,8 +92,14 @@ def r2_arguments(ctx):
     ctx.ob("C08.R2", "arg2-current-id", ("field:" + E + "ExecutionState.current_task") in la2 and any(l.endswith("ScheduledTask::id") for l in la2),
            "the second argument is current_task.id()", loc=sch.loc(s))
     la3, _ = sl.slice_operand(t["args"][3])
-    ctx.ob("C08.R2", "arg3-yield-flag-swap", ("field:" + E + "ExecutionState.has_yielded") in la3 and "call:core::mem::replace" in la3,
-           "the yielding flag is obtained by mem::replace(&mut has_yielded, false) (set exactly for the decision after a yield request)", loc=sch.loc(s))
+    HY = E + "ExecutionState.has_yielded"
+    swapped = "call:core::mem::replace" in la3
+    # equivalent spelling: read the flag, then store `false` into it on every path to the consultation
+    resets = [x for x, st in sch.assigns() if last_field(st["dst"]) == HY and st["rv"]["k"] == "use" and st["rv"]["ops"][0].get("k") == "const" and st["rv"]["ops"][0].get("ev") == 0]
+    reset_before = bool(resets) and sch.path_exists(None, lambda y: y == s, lambda y: y in set(resets)) is None
+    ctx.ob("C08.R2", "arg3-yield-flag-swap", ("field:" + HY) in la3 and (swapped or reset_before),
+           "the yielding flag is read from has_yielded and consumed (reset to false) by the very decision that reports it — set exactly for the decision after a yield request",
+           loc=sch.loc(s))
     w = kinds.writers_of_field(prog, E + "ExecutionState.has_yielded", {"shuttle_engine"}, kinds=("assign", "refmut", "call_dst"))
     kinds.check_who_may(ctx, "C08.R2", "writer of ExecutionState.has_yielded", set(w), {ES + "request_yield", ES + "schedule"},
                         required={ES + "request_yield", ES + "schedule"})
